@@ -315,13 +315,14 @@ def expand(names, universe):
 
 def coq_runs(pairs):
     """pairs: list of (run_a, run_b).  Returns the Coq text evaluating reorder_ok on each."""
-    sid = {}
-    vid = {}
-
-    def v(n):
-        return vid.setdefault(n, len(vid))
     rows = []
     for ra, rb in pairs:
+        # statement and variable numbers are local to a pair of runs (nat literals are unary in Coq)
+        sid = {}
+        vid = {}
+
+        def v(n, vid=vid):
+            return vid.setdefault(n, len(vid))
         universe = {}
         for (line, d, u) in ra + rb:
             for n in d + u:
@@ -385,7 +386,7 @@ def eval_many(ctx, files, timeout=900):
     return ctx.coq_eval_many([(n, t.replace('@GENLIB@', genlib(ctx))) for n, t in files], timeout=timeout)
 
 
-def run_chunks(ctx, mode, specs, nproc=8, extra=None, timeout=1500):
+def run_chunks(ctx, mode, specs, nproc=4, extra=None, timeout=1500):
     chunks = [specs[i::nproc] for i in range(nproc)]
     chunks = [c for c in chunks if c]
 
@@ -636,7 +637,7 @@ def cache_sequences(ctx, specs, results, tr_ok):
         seqs.append([(rng.choice(allids), rng.randint(0, 1)) for _ in range(rng.randint(2, 6))])
     used = sorted({sid for q in seqs for sid, _ in q})
     sub = [good[i][0] for i in used]
-    nproc = 8
+    nproc = 4
     parts = [seqs[i::nproc] for i in range(nproc)]
     parts = [p for p in parts if p]
 
@@ -746,6 +747,75 @@ def cache_sequences(ctx, specs, results, tr_ok):
             ctx.report('tie:cache-trace', 'model trace differs from the implementation (misses %s) on %s'
                        % ([ob.get('miss') for ob in obs], [[good[i][0]['code'], o_] for i, o_ in q]),
                        {'sequence': [[good[i][0]['code'], o_] for i, o_ in q], 'observed': obs}, found_input=False)
+
+
+def attribute_neighbours(ctx, specs, results, tr):
+    """Generated from the translated table: for every expression class and every constructor attribute of
+    it, pairs of forms that differ in exactly that attribute of one node (kernel expressions and let-bound
+    variables).  Equal vf.hash() with different generated code is the failing pair."""
+    if tr is None:
+        return
+    table = {cn: [a for a, _ in c['attrs']] for cn, c in tr['expr_classes'].items() if c['attrs']}
+    # observed string values per Class.attr (operators, function names, ...) as replacement pool
+    pool = {}
+
+    def walk(n):
+        for a, v in n['a'].items():
+            if 's' in v and 'var' not in v:
+                pool.setdefault('%s.%s' % (n['c'], a), set()).add(v['s'])
+        for c in n['ch']:
+            walk(c)
+    for r in results:
+        t = r.get('tree')
+        if r['status'] == 'Ok' and t:
+            for e in t['exprs']:
+                walk(e)
+            for v in t['vars']:
+                if 'expr' in v['src']:
+                    walk(v['src']['expr'])
+    for k in ('ScalarOperExpr.oper', 'TensorOperExpr.oper'):
+        pool.setdefault(k, set()).update(['+', '-', '*', '/'])
+    pool = {k: sorted(v) for k, v in pool.items()}
+    bases = [s for s, r in zip(specs, results) if s['mut'] == 'base' and r['status'] == 'Ok' and not r['code']['0'].startswith('ERR')]
+    if ctx.tier != 'thorough':
+        keep = [s for s in bases if not s['group'].startswith('rand')]
+        bases = keep + [s for s in bases if s['group'].startswith('rand')][:8]
+    nproc = 4
+    parts = [bases[i::nproc] for i in range(nproc)]
+    with ThreadPoolExecutor(max_workers=nproc) as ex:
+        outs = list(ex.map(lambda p: ctx.impl.run(DRIVER, {'mode': 'attrmut', 'specs': p, 'table': table, 'pool': pool}, timeout=1500), parts))
+    byid = {s['id']: s for s in specs}
+    reach = {}
+    n = 0
+    for o in outs:
+        for m in o['mutations']:
+            n += 1
+            key = '%s.%s' % (m['cls'], m['attr'])
+            st = reach.setdefault(key, {'pairs': 0, 'both_generate': 0, 'hash_equal': 0})
+            if 'err' in m:
+                continue
+            st['pairs'] += 1
+            ctx.count(('attrmut', m['id'], m['cls'], m['attr'], m['node'], m['new'][1]), nontrivial=True)
+            ok = not m['code'].startswith('ERR') and not m['base_code'].startswith('ERR')
+            st['both_generate'] += ok
+            st['hash_equal'] += bool(m['hash_eq'])
+            if m['hash_eq'] and ok and m['code'] != m['base_code'] and m.get('confirmed'):
+                s = byid[m['id']]
+                ctx.report('impl:hash-collision:%s' % key,
+                           'two forms that differ only in %s of one node (%s -> %s) have the same vf.hash() and generate different code; base form: %s'
+                           % (key, m['old'], m['new'][1], s['code']),
+                           {'specs': [s], 'mutation': {'class': m['cls'], 'attribute': m['attr'], 'node_index': m['node'], 'old': m['old'], 'new': m['new']},
+                            'code_sha': [m['base_code'], m['code']],
+                            'how': 'build the form twice with spec.code; on the second one set the attribute on node number node_index of the enumeration '
+                                   '(kernel expressions depth-first, then the expressions of let-bound variables; c13_driver.enum_nodes) BEFORE the first '
+                                   'vf.hash(); compare vf.hash() and compile.generate(vf)'})
+    ctx.cov['attribute_neighbour_pairs'] = n
+    ctx.cov['attribute_neighbours'] = reach
+    for cn, attrs in table.items():
+        for a in attrs:
+            if reach.get('%s.%s' % (cn, a), {}).get('pairs', 0) == 0:
+                ctx.broken.append('the generators contain no pair of forms differing only in %s.%s (a class/attribute of the translated table that the '
+                                  'mutation-neighbourhood search does not reach)' % (cn, a))
 
 
 def histories(ctx, specs, results, tr):
@@ -868,7 +938,7 @@ def freshness(ctx):
 
     def one(seed):
         return ctx.impl.run(DRIVER, payload, hashseed=seed, timeout=900)
-    with ThreadPoolExecutor(max_workers=len(seeds)) as ex:
+    with ThreadPoolExecutor(max_workers=min(4, len(seeds))) as ex:
         outs = list(ex.map(one, seeds))
     ctx.cov['hashseeds'] = seeds
     # --- module names: functional in the source, digest as specified, independent of the hash seed
@@ -1037,7 +1107,7 @@ def run(ctx):
     # vf.hash() contains hash(type) = address of the class object: hashes are comparable only
     # inside one process.  Groups (a base form with its mutants) stay together; the predefined
     # forms are part of every chunk.
-    nproc = 8
+    nproc = 4
     order = []
     for s in specs:
         if not s.get('shipped') and s['group'] not in order:
@@ -1080,6 +1150,8 @@ def run(ctx):
         COARSE.update('%s.%s' % (cn, a) for cn, c in tr['expr_classes'].items() for a, e in c['key'] if e == 'EOther')
         tie_keys(ctx, [x[0] for x in recs], [x[1] for x in recs])
     tick(ctx, 'key tie done')
+    attribute_neighbours(ctx, specs, results, tr)
+    tick(ctx, 'attribute neighbours done')
     cache_sequences(ctx, specs, results, tr)
     tick(ctx, 'cache sequences done')
     histories(ctx, specs, results, tr)
